@@ -21,5 +21,12 @@ def run(c, replay):
     c.run_layer(b, "TestVerif_C05_stale_rep_pos", "stale-rep-pos", deadline_s=c.pick(60, 600),
                 rule="all texts <= bound over 7 symbols x patterns <= 3 over 5 symbols x flags x 7 matchers: poisoned slabs, bytes vs runes, positions on/off "
                      "must not change Result/positions")
+    ov2 = c.harness_overlay("src", ["harness/fzf/c05b.go"], name="ov_item.json")
+    b2 = c.build_test("src", ov2, out="h_item.test")
+    c.run_layer(b2, "TestVerif_C05_item_histories", "item-histories", deadline_s=c.pick(90, 600), replay=replay,
+                rule="every line <= 4/5 over a b space : é x every ordered pair of patterns (6 nth lists x 2 delimiters x 6 queries x revisions r0 / minor bump / major bump) that a "
+                     "session can produce, applied to ONE Item: the second result (rank keys, offsets, positions) equals the result on a fresh Item; transitions = two-step histories")
+    if replay:
+        return
     import cli_layers
     cli_layers.layer_c05_cli(c)
